@@ -190,6 +190,12 @@ class MessagePackDocument(HierDictDocument):
             # a list or a map is not a number, like in _ret_number
             raise ValidationError(value)
 
+        if isinstance(value, float):
+            # hand over an int, and nothing that is not an integer.
+            if not value.is_integer():
+                raise ValidationError(value)
+            return int(value)
+
         return value
 
     def integer_to_bytes(self, cls, value, **_):
